@@ -141,6 +141,12 @@ pub fn conclude(id: &str, tier: &str, seed: i64, wall_s: f64, o: &Outcome) -> i3
         "machinery_failures": o.machinery,
     });
     std::fs::write(ev_dir.join(format!("{id}.json")), serde_json::to_string_pretty(&ev).unwrap()).expect("write evidence");
+    // the last thorough run is additionally kept next to it (the <id>.json file is rewritten by every run)
+    if tier == "thorough" {
+        let td = ev_dir.join("thorough");
+        let _ = std::fs::create_dir_all(&td);
+        let _ = std::fs::write(td.join(format!("{id}.json")), serde_json::to_string_pretty(&ev).unwrap());
+    }
 
     for (k, n) in &known_hits {
         outln(&format!("KNOWN-FINDING: property={} clause={} sig={} occurrences={} {}", id, k.clause, k.sig, n, k.what));
